@@ -9,7 +9,10 @@
                               TestCorrect, ExplainCorrect, QueryCorrect + structural ones; every completed sequence is emitted
  -> harness/drivers/c17.py    replays the sequences on the real CongClosure (full record projection, test on all pairs, explain on
                               all equal pairs) and on CongClosureHOL (f(x,y) = F x y; theorem run through theory.check_proof), plus
-                              seeded random curried-term scenarios (<= 8 constants, depth <= 3), UnionFind union sequences, and the
+                              seeded random curried-term scenarios (<= 8 constants, depth <= 3), queries after every prefix over
+                              applications never merged or added (all pairs of F x y over the constants, swapped arguments, depth 2;
+                              merges with and without proof terms, exported proofs checked with no_gaps when all carried one),
+                              UnionFind union sequences, and the
                               systematic family "edges of one path through 6-7 constants merged in every order" (deep proof-forest
                               paths on both sides of a merge; exhaustive from TLC in thorough: C17_CongCImpl_chain.cfg)
  T  spec/C17_CongCTrace.tla   TLC evaluates test <=> Closure, Explains(used), theorem/hypotheses clauses on every event, and compares
@@ -162,10 +165,12 @@ def run(rep, tier):
             ("c17", ["hol", vec, wd / "hol.ndjson", sd, 300 if quick else 6000], None),
             ("c17", ["holrand", 100 if quick else 2500, wd / "holrand.ndjson", sd], None),
             ("c17", ["corerand", 200 if quick else 3000, wd / "corerand.ndjson", sd], None),
+            # wrapper queries over applications never merged or added (all pairs of F x y over the constants) after every prefix
+            ("c17", ["holq", 60 if quick else 800, wd / "holq.ndjson", sd], None),
             ("c17", ["uf", vec, 100 if quick else 0, 120 if quick else 3000, wd / "uf.ndjson", sd], None)]
     # systematic path-shaped constant-equation families (deep proof-forest paths: 6-7 constants, 5-6 merges), raw class and wrapper
     jobs.append(("c17", ["chains", wd / "chain_core.ndjson", wd / "chain_hol.ndjson", sd, 4, 150 if quick else 1500, 100 if quick else 400], None))
-    traces = ["core", "hol", "holrand", "corerand", "uf", "chain_core", "chain_hol"]
+    traces = ["core", "hol", "holrand", "holq", "corerand", "uf", "chain_core", "chain_hol"]
     for name, vf, mx, every in extra:
         jobs.append(("c17", ["core", vf, wd / ("core_%s.ndjson" % name), sd, mx, every, 1 if name in ("wide", "c4", "chain") else 0], None))
         traces.append("core_" + name)
@@ -218,11 +223,16 @@ def run(rep, tier):
     hol_hyp = sum(1 for e in hol_all for x in e["explains"] if x["outcome"] == "ok" and x["h"])
     hol_gap = sum(1 for e in hol_all for x in e["explains"] if x["outcome"] == "ok" and x["gaps"])
     big = sum(1 for e in events["holrand"] if len(e["U"]) >= 20)
+    fresh_q = sum(len(e["tests"]) for e in hol_all if e["op"][0] == "probe")
+    fresh_true = sum(1 for e in hol_all if e["op"][0] == "probe" for x in e["tests"] if x[3])
+    allpt_ok = sum(1 for e in hol_all if e["cpt"] and all(e["cpt"]) for x in e["explains"] if x["outcome"] == "ok" and len(x["h"]) >= 2)
     deep = sum(1 for e in events["chain_core"] if any(len(x[3]) >= 4 for x in e["explains"]))
     deep_hol = sum(1 for e in events["chain_hol"] for x in e["explains"] if x["outcome"] == "ok" and len(x["h"]) + len(x["gaps"]) >= 4)
     rep.notes["counts"] = {"core_events": len(core), "core_explanations_using_f_equations": n_f_expl, "core_lazy_add_var": n_lazy,
                            "hol_theorems_checked": hol_ok, "with_hypotheses": hol_hyp, "with_gaps": hol_gap,
                            "holrand_events_with_20+_subterms": big, "uf_events": len(events["uf"]),
+                           "wrapper_tests_on_fresh_terms": fresh_q, "of_which_true": fresh_true,
+                           "theorems_checked_gap_free_from_2+_proof_terms": allpt_ok,
                            "chain_events_with_explanations_of_4+_equations": deep, "chain_hol_theorems_from_4+_equations": deep_hol}
     tr = rep.notes["traces"]
     if not rep.violations:
@@ -231,11 +241,13 @@ def run(rep, tier):
         require(n_f_expl >= 500 and n_lazy >= 1000, "C17: explanations through congruence / lazy constants not exercised")
         require(hol_ok >= 300 and hol_hyp >= 50 and hol_gap >= 50 and big >= 20, "C17: too few HOL explanations examined %s" % rep.notes["counts"])
         require(tr["uf"]["nontrivial"] >= 50 and tr["core_c4"]["nontrivial"] >= 150, "C17: too few union-find / 4-constant events examined")
+        require(fresh_q >= 20000 and fresh_true >= 1000 and allpt_ok >= 300,
+                "C17: queries on never-added terms / proofs from proof terms not exercised %s" % rep.notes["counts"])
         require(tr["chain_core"]["nontrivial"] >= 600 and deep >= 300 and deep_hol >= 300,
                 "C17: deep proof-forest paths not exercised %s" % rep.notes["counts"])
     # ------------------------------------------------------------------ binding self-tests: corrupt one recorded field
     bad = {"TestComplete": [], "TestSound": [], "ExplainEntails": [], "ExplainMerged": [], "HolTest": [], "HolStates": [], "HolHyps": [],
-           "UfPartition": []}
+           "HolGapFree": [], "UfPartition": []}
     tid = [9 * 10 ** 8]
 
     def corrupt(e, clause):
@@ -272,6 +284,12 @@ def run(rep, tier):
             c = corrupt(e, "HolHyps")
             c["explains"] = [x]
             c["ceqs"] = []
+            c["cpt"] = []
+        gp = [x for x in e["explains"] if x["outcome"] == "ok" and x["gaps"]]
+        if gp and len(bad["HolGapFree"]) < 3:
+            c = corrupt(e, "HolGapFree")     # the same gaps, but every merge is recorded as having carried a proof term
+            c["explains"] = [copy.deepcopy(gp[0])]
+            c["cpt"] = [True] * len(c["cpt"])
     for e in events["uf"]:
         if e["exc"] == "" and len(e["items"]) >= 2 and len(bad["UfPartition"]) < 3:
             c = corrupt(e, "UfPartition")
